@@ -297,7 +297,16 @@ func scenarioGrants(sm *sim, w *world) {
 	sm.tx(2, "run-granted", gCall, fc, part{by: sb, m: mRunPay(to, 5, 0)})
 	sm.tx(2, "call-not-granted", gCall, fc, part{by: sb, m: mCall(VaultPath, "Noop", 0)})
 
+	// two sessions of different masters co-sign one tx: each message is judged by its own signer's grant
+	sm.tx(2, "two-sessions-each-within-own-grant", gCall, fc, part{by: sb, m: mSend(to, ug(5))}, part{by: sa, m: mCall(VaultPath, "Noop", 3)})
+	sm.tx(2, "two-sessions-second-needs-firsts-grant", gCall, fc, part{by: sb, m: mSend(to, ug(5))}, part{by: sa, m: mSend(to, ug(5))})
+	sm.tx(2, "two-sessions-second-needs-firsts-grant-reversed", gCall, fc, part{by: sa, m: mCall(VaultPath, "Noop", 3)}, part{by: sb, m: mCall(VaultPath, "Noop", 3)})
+	sm.tx(2, "two-sessions-first-needs-seconds-grant", gCall, fc, part{by: sa, m: mSend(to, ug(5))}, part{by: sb, m: mSend(to, ug(5))})
+
 	sc := sm.create(2, c, "wildcard", sm.newKey("g"), big, 0, 0, []string{"*"})
+	sm.tx(2, "wildcard-session-first-restricted-second", gCall, fc, part{by: sc, m: mSend(to, ug(5))}, part{by: sa, m: mSend(to, ug(5))})
+	sm.tx(2, "wildcard-session-first-restricted-second-run", gCall, fc, part{by: sc, m: mRunPay(to, 5, 0)}, part{by: sa, m: mRunPay(to, 5, 0)})
+	sm.tx(2, "restricted-first-wildcard-second", gCall, fc, part{by: sa, m: mCall(VaultPath, "Noop", 3)}, part{by: sc, m: mSend(to, ug(5))})
 	other := sm.newKey("esc")
 	sm.tx(2, "wildcard-create-session", gSend, feeU(6000), part{by: sc, m: mAuth("create_session", other)})
 	sm.tx(2, "wildcard-revoke-own-session", gSend, feeU(6000), part{by: sc, m: mAuth("revoke_session", sc.key)})
